@@ -1,6 +1,25 @@
 // Contract overlay for unit `fswatch` (C13)
 //@ item Watcher
 //@ item WatchedPath
+//@ item notify_multi_path_errors
+//@ header
+#[verifier::exec_allows_no_decreases_clause]
+#[verifier::loop_isolation(false)]
+pub fn notify_multi_path_errors(kind: Watcher, watched_path: WatchedPath, mut err: NotifyError, rm: bool) -> (r: Vec<RuntimeError>)
+    ensures
+        // one runtime error per path the notify error names (the configured path if it names none), each naming that path and the operation
+        r@.len() == (if n_paths(err) == 0 { 1nat } else { n_paths(err) }), // OBL:C13+C15.notify_multi_path_errors.one_error_per_named_path
+        forall|i: int| 0 <= i < r@.len() ==> err_names(#[trigger] r@[i], kind, (if n_paths(err) == 0 { watched_path.path } else { err.paths@[i] }), rm), // OBL:C13+C15.notify_multi_path_errors.one_error_per_named_path
+//@ prologue
+    let ghost e0 = err;
+//@ loop 0
+let ghost ps = vx_it0.v@;
+invariant
+    0 <= vx_it0.pos@ <= vx_it0.v@.len(), vx_it0.v@ == ps,
+    ps == (if n_paths(e0) == 0 { seq![watched_path.path] } else { e0.paths@ }), // OBL:C13+C15.notify_multi_path_errors.one_error_per_named_path
+    errs@.len() == vx_it0.pos@,
+    err is Some ==> err->Some_0.paths@.len() == 0,
+    forall|i: int| 0 <= i < errs@.len() ==> err_names(#[trigger] errs@[i], kind, ps[i], rm), // OBL:C13+C15.notify_multi_path_errors.one_error_per_named_path
 //@ item fs::worker
 //@ header
 #[verifier::exec_allows_no_decreases_clause]
